@@ -26,9 +26,19 @@ def run(cmd, **kw):
     return subprocess.run(cmd, stdout=subprocess.PIPE, stderr=subprocess.STDOUT, text=True, **kw)
 
 
+def repo_tag():
+    return hashlib.sha1(REPO.encode()).hexdigest()[:8] if REPO != "/repo" else "main"
+
+
+# Runs against a scratch copy of the repository (mutant / seeded-change runs) must not touch the
+# committed evidence or replay directories.
+SCRATCH = REPO != "/repo"
+OUTDIR = VERIF if not SCRATCH else os.path.join(BUILD, "scratch-" + repo_tag())
+
+
 def configure_repo():
     """Run the repository's own CMake configure step -> ImathConfig.h (exercises config plumbing)."""
-    tag = hashlib.sha1(REPO.encode()).hexdigest()[:8] if REPO != "/repo" else "main"
+    tag = repo_tag()
     cfg = os.path.join(BUILD, "cfg-" + tag)
     r = run(["cmake", "-G", "Ninja", "-S", REPO, "-B", cfg, "-DBUILD_TESTING=OFF", "-DCMAKE_BUILD_TYPE=RelWithDebInfo"])
     if r.returncode != 0:
@@ -42,7 +52,7 @@ LIB_CPP = ["half.cpp", "ImathColorAlgo.cpp", "ImathFun.cpp", "ImathMatrixAlgo.cp
 
 def build_cpp(prop, spec, cfg_inc, variant=""):
     """Compile harness TUs + library sources in parallel, link. Always from scratch (no stale objects)."""
-    bdir = os.path.join(BUILD, prop + variant)
+    bdir = os.path.join(BUILD, prop + variant + ("" if not SCRATCH else "-" + repo_tag()))
     shutil.rmtree(bdir, ignore_errors=True)
     os.makedirs(bdir)
     cxx = spec.get("cxx", "g++")
@@ -125,8 +135,8 @@ def write_evidence(prop, tier, seed, rep, extra_cov=None, violations=0):
         "wall_s": round(float(rep.get("wall_s", 0.0)), 3),
         "violations": int(violations),
     }
-    os.makedirs(os.path.join(VERIF, "evidence"), exist_ok=True)
-    p = os.path.join(VERIF, "evidence", prop + ".json")
+    os.makedirs(os.path.join(OUTDIR, "evidence"), exist_ok=True)
+    p = os.path.join(OUTDIR, "evidence", prop + ".json")
     tmp = p + ".tmp"
     json.dump(ev, open(tmp, "w"), indent=1)
     os.replace(tmp, p)
@@ -141,7 +151,7 @@ def judge(prop, tier, seed, rep, extra_cov=None):
         by_site.setdefault(v["site"], []).append(v)
     status = 0
     nviol = 0
-    os.makedirs(os.path.join(VERIF, "replay"), exist_ok=True)
+    os.makedirs(os.path.join(OUTDIR, "replay"), exist_ok=True)
     for site, cnt in sorted(rep.get("violation_counts", {}).items()):
         vs = by_site.get(site, [])
         k = match_known(known, prop, site, [v["input"] for v in vs])
@@ -151,7 +161,7 @@ def judge(prop, tier, seed, rep, extra_cov=None):
             continue
         nviol += 1
         status = 1
-        rp = os.path.join(VERIF, "replay", "%s-%s.json" % (prop, re.sub(r"[^A-Za-z0-9_.-]+", "_", site)[:80]))
+        rp = os.path.join(OUTDIR, "replay", "%s-%s.json" % (prop, re.sub(r"[^A-Za-z0-9_.-]+", "_", site)[:80]))
         json.dump({"property": prop, "site": site, "count": cnt, "tier": tier, "cases": vs,
                    "replay_cmd": "python3 tools/check.py %s %s --replay %s" % (prop, tier, rp)}, open(rp, "w"), indent=1)
         v0 = vs[0] if vs else {}
@@ -169,7 +179,7 @@ def run_cpp(prop, tier, seed, replay=None):
     spec = PROPS[prop]
     cfg_inc = configure_repo()
     exe = build_cpp(prop, spec, cfg_inc)
-    out = os.path.join(BUILD, prop, "report.json")
+    out = os.path.join(os.path.dirname(exe), "report.json")
     deadline = spec.get("deadline", {}).get(tier, 240 if tier == "quick" else 1500)
     cmd = [exe, "--tier", tier, "--seed", str(seed), "--out", out, "--deadline", str(deadline)]
     if replay:
